@@ -74,10 +74,13 @@ def gen(rng, n_cases):
         metric = METRICS[t % 3]
         if t % 11 == 5 and n <= 40:
             metric = EXTRA_METRICS[(t // 11) % len(EXTRA_METRICS)]
+        # how the indicator object came to be: built as asked / built with another metric and re-configured
+        # (`ind.metric = ...`) / a deep copy or an unpickled copy of the one that was built
+        how = ["ctor", "ctor", "assign", "deepcopy", "pickle"][rng.randint(5)]
         scale = float(rng.choice([0.5, 2.0, 3.0, 0.25, 2.0 ** -30, 2.0 ** -40, 2.0 ** 24]))
         if metric in EXTRA_METRICS and not (0.2 < scale < 4):
             scale = 0.5         # (data-dependent metrics invert a covariance: extreme units make SciPy's inverse singular)
-        yield {"metric": metric, "z": bool(z), "ideal": ideal, "nadir": nadir, "pf": pf, "F": F,
+        yield {"how": how, "metric": metric, "z": bool(z), "ideal": ideal, "nadir": nadir, "pf": pf, "F": F,
                # another indicator with another metric is alive and has just scored the same points
                "other_metric": METRICS[(t + 1 + rng.randint(2)) % 3] if rng.randint(3) == 0 else None,
                "perm": rng.permutation(n), "shift": np.round(rng.standard_normal(m) * 4) / 4,
@@ -99,8 +102,24 @@ def _mk(case):
                             nadir=None if case["nadir"] is None else np.array(case["nadir"], dtype=float))
 
 
+def _mk_how(case):
+    how = case.get("how") or "ctor"
+    if how == "assign" and case["metric"] in METRICS:
+        ind = _mk(dict(case, metric=METRICS[(METRICS.index(case["metric"]) + 1) % 3]))
+        ind.metric = case["metric"]
+        return ind
+    ind = _mk(case)
+    if how == "deepcopy":
+        import copy
+        return copy.deepcopy(ind)
+    if how == "pickle":
+        import pickle
+        return pickle.loads(pickle.dumps(ind))
+    return ind
+
+
 def run(case, replay=None):
-    rec = Record(NAME, {"metric": case["metric"], "z": case["z"], "other_metric": case.get("other_metric")},
+    rec = Record(NAME, {"metric": case["metric"], "z": case["z"], "other_metric": case.get("other_metric"), "how": case.get("how") or "ctor"},
                  {k: (None if case[k] is None else np.array(case[k], dtype=float)) for k in ("ideal", "nadir", "pf", "F")})
     rec.inp["perm"] = np.array(case["perm"], dtype=int)
     rec.inp["shift"] = np.array(case["shift"], dtype=float)
@@ -113,7 +132,9 @@ def run(case, replay=None):
             other.do(F.copy())
             other.do(F[rec.inp["perm"]].copy())
             rec.tags.add("second-indicator-alive")
-        ind = _mk(case)
+        ind = _mk_how(case)
+        if (case.get("how") or "ctor") != "ctor":
+            rec.tags.add("indicator:" + case["how"])
         rec.out["S"] = float(ind.do(Fc))
         rec.out["S_perm"] = float(_mk(case).do(F[rec.inp["perm"]].copy()))
         if not case["z"]:
@@ -298,6 +319,13 @@ class Spnn:
         try:
             from pymoode.performance._spacing import SpacingIndicator
             rec.out["S"] = float(SpacingIndicator().do(F.copy()))
+            # the indicator asked for another metric, in this process (with whatever engine is available), against the NumPy
+            # computation with that metric
+            for m_ in ("euclidean", "chebyshev"):
+                rec.out["S_" + m_] = float(SpacingIndicator(metric=m_).do(F.copy()))
+                Dm = squareform(pdist(F, metric=m_))
+                dm_ = np.partition(Dm, 1, axis=1)[:, 1]
+                rec.out["Sref_" + m_] = float(np.sqrt(((dm_ - dm_.mean()) ** 2).sum() / len(dm_)))
         except Exception as e:
             rec.err = "%s: %s" % (type(e).__name__, e)
         return rec
@@ -337,6 +365,10 @@ class Spnn:
         S = float(np.sqrt(((d - d.mean()) ** 2).sum() / n))
         if not close(S, rec.out["S"]):
             bad.append("SpacingIndicator %r differs from the value computed from the compiled helper %r" % (rec.out["S"], S))
+        for m_ in ("euclidean", "chebyshev"):
+            if "S_" + m_ in rec.out and not close(rec.out["S_" + m_], rec.out["Sref_" + m_], 1e-7):
+                bad.append("SpacingIndicator(metric=%r) = %r with the extensions available, NumPy computation %r" % (
+                    m_, rec.out["S_" + m_], rec.out["Sref_" + m_]))
         return bad
 
 
